@@ -1,4 +1,4 @@
-import os, sys; ROOT = os.environ.get("JOBLIB_ROOT", "/tmp/wt_s2"); sys.path.insert(0, ROOT); os.environ["PYTHONPATH"] = ROOT + os.pathsep + os.environ.get("PYTHONPATH", "")
+import os, sys; ROOT = os.environ.get("JOBLIB_ROOT", "/repo"); sys.path.insert(0, ROOT); os.environ["PYTHONPATH"] = ROOT + os.pathsep + os.environ.get("PYTHONPATH", "")
 """Unchanged tree, C05: the process is killed between the rename of
 output.pkl and the rename of metadata.json (second os.replace of a cold
 call). The entry then has a result but no metadata; get_metadata() returns {}
